@@ -7,7 +7,7 @@ use crate::glue;
 use crate::oracle::rules::{Mv, Pos};
 use crate::oracle::tb::Wdl;
 use crate::runner::{Ctx, Local, Prop};
-use crate::search::{self, SearchSpec, POS_INF};
+use crate::search::{self, Geometry, SearchSpec, POS_INF};
 use proptest::prelude::*;
 use serde::{Deserialize, Serialize};
 use serde_json::json;
@@ -161,7 +161,12 @@ impl Prop for Repetition {
                 }
             }
         }
-        let mut artifact = search::new_artifact(case.hasher_seed, GEOM);
+        // shape 3 also runs on small memories that the earlier searches fill up (a table that is
+        // more than half full when the judged search starts); one worker there
+        let small = [None, Some(Geometry { tables: 3, buckets: 61 }), Some(Geometry { tables: 7, buckets: 29 }), Some(Geometry { tables: 5, buckets: 32 })];
+        let geometry = if case.shape == 3 { small[(case.hasher_seed % 4) as usize].unwrap_or(GEOM) } else { GEOM };
+        let small_memory = geometry != GEOM;
+        let mut artifact = search::new_artifact(case.hasher_seed, geometry);
         if case.shape == 3 {
             // the way positions get recorded in real use: each recorded successor was the root of
             // an earlier search on the same search memory (which also leaves its table entries)
@@ -188,6 +193,24 @@ impl Prop for Repetition {
                 }
             }
             loc.class("recorded_by_earlier_searches");
+            if small_memory {
+                // one more earlier search, of an unrelated position, to fill the table
+                let filler = Pos::from_fen("8/2p5/3p4/KP5r/1R3p1k/8/4P1P1/8 w - - 0 1").unwrap();
+                let pre = SearchSpec { depth: Some(5), seed: case.seed ^ 0xf111, workers: 1, sched_seed: None, cancel_after: None };
+                let (o, back) = search::run(&filler, &pre, artifact, usize::MAX);
+                loc.eval();
+                match back {
+                    Some(a) => artifact = a,
+                    None => return Err(format!("earlier search of '{}' ({:?}) panicked: {:?}", filler.fen(), pre, o.panic)),
+                }
+                let (used, cap) = verif::table_usage(&artifact);
+                loc.class(if used * 2 > cap { "small_memory_more_than_half_full_before_the_judged_search" } else { "small_memory_at_most_half_full" });
+                for s in recorded_pos.iter() {
+                    if !verif::history_contains(&artifact, &glue::state_direct(s)) {
+                        return Err(format!("after a further search on the same memory, '{}' is no longer recorded as seen", s.fen()));
+                    }
+                }
+            }
         } else {
             for s in recorded_pos.iter() {
                 verif::record_history(&mut artifact, &glue::state_direct(s));
@@ -202,7 +225,11 @@ impl Prop for Repetition {
         recorded.insert(key(&pos));
         let s_moves: Vec<Mv> = legal.iter().filter(|(_, s)| recorded_pos.iter().any(|r| key(r) == key(s))).map(|x| x.0).collect();
 
-        let spec = SearchSpec { depth: Some(depth), seed: case.seed, workers: case.workers, sched_seed: case.sched, cancel_after: None };
+        let spec = if small_memory {
+            SearchSpec { depth: Some(depth), seed: case.seed, workers: 1, sched_seed: None, cancel_after: None }
+        } else {
+            SearchSpec { depth: Some(depth), seed: case.seed, workers: case.workers, sched_seed: case.sched, cancel_after: None }
+        };
         let (out, _) = search::run(&pos, &spec, artifact, usize::MAX);
         loc.eval();
         let what = format!(
@@ -257,7 +284,7 @@ impl Prop for Repetition {
             loc.class("no_mate_within_depth_with_draws");
         }
         // did the history change the answer? (same seed, empty history)
-        let (free, _) = search::run(&pos, &spec, search::new_artifact(case.hasher_seed, GEOM), usize::MAX);
+        let (free, _) = search::run(&pos, &spec, search::new_artifact(case.hasher_seed, geometry), usize::MAX);
         if let Some(fb) = free.best.last() {
             if s_moves.contains(&fb.line[0]) {
                 loc.class("history_changed_the_answer");
@@ -284,7 +311,8 @@ pub fn plan(ctx: &Ctx) -> Plan {
                move free; companion shapes: every successor of the root recorded (the evaluation must then be exactly the \
                draw score), the root itself recorded in addition (it must still be searched), and - the way it \
                happens in real use - the recorded successors having been roots of earlier searches (depth 1-4) on the \
-               same search memory, which also leaves their table entries behind. depth n..n+2, seeds, \
+               same search memory, which also leaves their table entries behind (three quarters of these cases on a small \
+               memory - 3x61, 7x29 or 5x32 buckets, table counts coprime to the bucket counts so that every bucket is reachable - that a further earlier search fills beyond one half). depth n..n+2, seeds, \
                1-32 workers under the baton scheduler, fresh 8x1024 memory. The expectation is solved in the game the \
                property defines (recorded positions and the root are terminal draws) by an exhaustive AND/OR search over \
                the 3-man move graph bounded by the depth: if a mate is still forced the final evaluation must be >= \
